@@ -13,8 +13,8 @@
 #include <sched.h>
 
 #define MAXU 48
-enum { OP_YIELD, OP_CHILD, OP_SUSPEND, OP_MIGRATE, OP_EXIT, OP_STATE, OP_CREATE_TO, OP_YIELD_TO, OP_RESUME_YIELD_TO, OP_SWITCH, OP_NOPS };
-static const char *OPN_[] = { "yield", "child", "suspend", "migrate", "exit", "state", "create_to", "yield_to", "resume_yield_to", "switch" };
+enum { OP_YIELD, OP_CHILD, OP_SUSPEND, OP_MIGRATE, OP_EXIT, OP_STATE, OP_CREATE_TO, OP_YIELD_TO, OP_RESUME_YIELD_TO, OP_SWITCH, OP_NOPS, OP_TJOIN };
+static const char *OPN_[] = { "yield", "child", "suspend", "migrate", "exit", "state", "create_to", "yield_to", "resume_yield_to", "switch", "-", "tjoin" };
 
 typedef struct unit {
     int id, kind, named, pool, parent; /* kind: AK_ULT / AK_TASK */
@@ -24,6 +24,7 @@ typedef struct unit {
     int home, moves, life; /* home: pool it was created in; moves: it has a migrate step; life: 0 first, 1 revived */
     struct unit *fwd;      /* the descriptor was revived as that unit (the migration callback keeps the first argument) */
     int last_mig_tgt, force_tgt; /* pool of the last completed migration (+1, 0 = none); a revived unit asks for it again */
+    int ext_join;                /* joined and freed by the external joiner thread, not by the primary ULT */
     long arg_seen;
 } unit;
 static unit U[MAXU];
@@ -52,8 +53,12 @@ static void gen_steps(unit *u)
     u->moves = 0;
     for (int i = 0; i < u->nsteps; i++) {
         int op = sc_rnd(OP_NOPS);
-        if (u->kind == AK_TASK && op != OP_STATE)
-            op = OP_STATE; /* tasklets cannot yield / block / migrate */
+        if (u->kind == AK_TASK && op != OP_STATE) {
+            op = OP_STATE; /* tasklets cannot yield / block / migrate ... */
+            if (sc_nes >= 2 && sc_rnd(4) == 0 && u->pool != shared_pool && u->pool != 0)
+                op = OP_TJOIN; /* ... but may join (the stream's OS thread then sleeps on a futex); the target lives in
+                                * the primary stream's pool, which never blocks that way: no circular wait */
+        }
         if (op == OP_MIGRATE && (sc_nes < 2 || u->pool == shared_pool))
             op = OP_YIELD;
         if (op == OP_SUSPEND && !u->named)
@@ -133,7 +138,8 @@ static void join_unit_ex(int id, int by, int free_only)
     ABTI_thread *p_target = ABTI_thread_get_ptr(u->th);
     {
         char b[64];
-        vs_log("apiCall join U%d %s", id, vs_addr_name(p_target, b, sizeof b));
+        vs_log("apiCall join U%d %s %s", id, vs_addr_name(p_target, b, sizeof b),
+               by == 98 ? "ext" : ((by >= 0 && by < MAXU && U[by].kind == AK_TASK) ? "task" : "ult"));
     }
     if (free_only == 1) {
         ABT_OK(ABT_thread_free(&u->th));
@@ -300,6 +306,23 @@ static void unit_fn(void *arg)
                     VSA_CHECK(U[c].started == 1, "directed switch from U%d: the target U%d had not run when the caller resumed", u->id, c);
                 if (U[c].named)
                     children[nch++] = c;
+                break;
+            }
+            case OP_TJOIN: {
+                /* a tasklet creates a ULT in a pool served by another (live) stream and joins it */
+                int c = new_unit(u->id, 0);
+                if (c < 0)
+                    break;
+                U[c].kind = AK_ULT;
+                U[c].named = 1;
+                U[c].pool = U[c].home = 0;
+                gen_steps(&U[c]);
+                for (int k = 0; k < U[c].nsteps; k++) /* it must not depend on this (blocked) stream: no children, no waits */
+                    if (U[c].steps[k] != OP_YIELD && U[c].steps[k] != OP_STATE)
+                        U[c].steps[k] = OP_YIELD;
+                U[c].moves = 0;
+                launch_unit(c);
+                join_unit_ex(c, u->id, sc_rnd(2));
                 break;
             }
             case OP_SWITCH: {
@@ -493,6 +516,18 @@ static void unit_fn(void *arg)
     __sync_fetch_and_sub(&live_workers, 1);
 }
 
+/* external joiner: joins and frees the top-level units assigned to it (futex path of the join hand-shake) */
+static int extj[8], nextj;
+static volatile int extj_done;
+static void *ext_joiner(void *p)
+{
+    (void)p;
+    for (int i = 0; i < nextj; i++)
+        join_unit_ex(extj[i], 98, sc_rnd(2));
+    extj_done = 1;
+    return NULL;
+}
+
 /* resumer: an external thread that resumes suspended units the moment their BLOCKED state is visible */
 static void *resumer(void *p)
 {
@@ -521,7 +556,7 @@ static void check_stream_done(int x)
         unit *u = &U[i];
         if (u->home != x || u->moves || u->pool != x)
             continue;
-        if (u->parent < 0 && !u->joined && u->th != ABT_THREAD_NULL) {
+        if (u->parent < 0 && !u->ext_join && !u->joined && u->th != ABT_THREAD_NULL) {
             ABT_thread_state st;
             ABT_OK(ABT_thread_get_state(u->th, &st));
             VSA_CHECK(st == ABT_THREAD_STATE_TERMINATED,
@@ -622,9 +657,25 @@ int main(int argc, char **argv)
             ABT_OK(ABT_thread_cancel(U[c].th));
         }
     }
+    /* some top-level units belong to the external joiner */
+    pthread_t jt;
+    for (int i = 0; i < ntop; i++)
+        if (!U[tops[i]].cancel_me && sc_rnd(4) == 0) {
+            int has_susp = 0;
+            for (int k = 0; k < U[tops[i]].nsteps; k++)
+                if (U[tops[i]].steps[k] == OP_SUSPEND || U[tops[i]].steps[k] == OP_SWITCH || U[tops[i]].steps[k] == OP_MIGRATE)
+                    has_susp = 1; /* the resumer reads their handles: they stay with the primary, which joins before it frees */
+            if (!has_susp) {
+                U[tops[i]].ext_join = 1;
+                extj[nextj++] = tops[i];
+            }
+        }
+    pthread_create(&jt, NULL, ext_joiner, NULL);
     /* join the top-level units; some get a second life (revive); with an early stream join some are left for later */
     int later[16], nl = 0;
     for (int i = 0; i < ntop; i++) {
+        if (U[tops[i]].ext_join)
+            continue;
         if (topo && sc_rnd(2)) {
             later[nl++] = tops[i];
             continue;
@@ -663,8 +714,9 @@ int main(int argc, char **argv)
                           U[i].finished);
     for (int i = 0; i < nl; i++)
         join_unit(later[i], 99);
-    while (live_workers > 0)
+    while (live_workers > 0 || !extj_done)
         ABT_OK(ABT_thread_yield());
+    pthread_join(jt, NULL);
     stop_resumer = 1;
     pthread_join(rt, NULL);
     for (int i = 1; i < npools; i++) {
